@@ -360,7 +360,7 @@ class DiffPolyKernel(DiffKernelMixin, Kernel):
         if eval_gradient and optg:
             dk = 0
         dot1 = (self.gamma * X).dot(Y.T)
-        dotn = 1
+        dotn = np.ones_like(dot1)
         for n in range(1, self.order + 1):
             if self.factorial:
                 if eval_gradient and optg:
@@ -403,7 +403,7 @@ class DiffPolyKernel(DiffKernelMixin, Kernel):
         k = 1.0
         dk = 0.0
         dot1 = (self.gamma * X).dot(Y.T)
-        dotn = 1
+        dotn = np.ones_like(dot1)
         for n in range(1, self.order + 1):
             if self.factorial:
                 dk += dotn
